@@ -403,11 +403,11 @@ func ReplayManifestFile(fp *os.File, extMagic uint16, opt Options) (Manifest, in
 			return Manifest{}, 0, err
 		}
 		length := y.BytesToU32(lenCrcBuf[0:4])
-		// Sanity check to ensure we don't over-allocate memory.
-		if length > uint32(stat.Size()) {
-			return Manifest{}, 0, fmt.Errorf(
-				"Buffer length: %d greater than file size: %d. Manifest file might be corrupted",
-				length, stat.Size())
+		// Sanity check to ensure we don't over-allocate memory. A record that does
+		// not fit into what is left of the file is the incomplete last record of a
+		// torn append: stop here, like for any other short read.
+		if int64(length) > stat.Size()-r.count {
+			break
 		}
 		var buf = make([]byte, length)
 		if _, err := io.ReadFull(&r, buf); err != nil {
